@@ -252,7 +252,7 @@ def run(ctx):
     rep.rule("C09.R4", "explicit l_ref is never overwritten", 3)
     rep.rule("C09.R6", "tracking state read by subsystem.l is (re)initialised unconditionally before the default l_ref is evaluated", 2)
     r6_fresh_tracking(ctx)
-    rep.rule("C09.R5", "rank-normalised use of scalar-interface arrays whose rank differs between the supported subsystems", 8)
+    rep.rule("C09.R5", "rank-normalised use of scalar-interface arrays whose rank differs between the supported subsystems", 5)
     r5_interface_shapes(ctx)
     model = ctx.model
     ext = protocol.external_setters(ctx)
@@ -423,7 +423,7 @@ def r5_interface_shapes(ctx):
                     rep.bad("C09.R5", C, _stmt(call), f"`{norm_src(call)}` is used without shape normalisation although the supported subsystems return different ranks "
                             f"({', '.join(f'{k}: {v}-D' for k, v in r.items())}); on one of them the expression broadcasts to the wrong shape or fails "
                             f"(the sibling ScalarForceLawBase always applies .reshape)", f"{rel}:{call.lineno}")
-    if n < 8:
+    if n < 5:   # 8 on the pinned tree; an interaction that stops calling a point Jacobian directly is not an analysis failure
         raise AnalysisError(f"only {n} uses of rank-differing interface methods found in the force laws")
 
 
